@@ -545,6 +545,11 @@ func (e *Engine) frameGoal(h0, h1 *Term, class string, locs []Loc, a0 *Term) *Te
 			mine = append(mine, l)
 		}
 	}
+	for _, l := range mine {
+		if l.All {
+			return tb.True()
+		}
+	}
 	r := tb.BoundVar("r", SInt)
 	if len(class) > 2 && class[:2] == "G:" {
 		// global scalar cell
